@@ -51,6 +51,8 @@ class YieldCounter:
         self._quiet_break = 0
         self.hooks: list = []   # extra call models for the environment (e.g. helper inlining for a concrete class)
         self.assume_hooks: list = []
+        self.prog = None        # set by the rule: lets sizes flow through helper methods / functions of the repository
+        self._hdepth = 0
 
     # ------------------------------------------------------------------ entry
     def run(self) -> list[YState]:
@@ -161,6 +163,9 @@ class YieldCounter:
                 if isinstance(v, Lin):
                     self.assumptions.append(f"{norm(e.func)}(...) is an initializer-like callable whose 4th argument is the size (callee not resolvable)")
                     return v
+            hs = self.helper_size(st, e)
+            if hs is not None:
+                return hs
             return Opaque(f"size of call {nm}")
         if isinstance(e, (ast.ListComp, ast.GeneratorExp)) and len(e.generators) == 1 and not e.generators[0].ifs:
             return self.size_of(st, e.generators[0].iter)
@@ -184,6 +189,64 @@ class YieldCounter:
                 env.facts.add_ge(u, lo1)
             return u
         return s_
+
+    def helper_size(self, st: YState, e: ast.Call) -> Any:
+        """size of what a helper of the repository returns: its straight-line body is followed with the sizes / values of the
+        arguments bound to its parameters; a tuple literal returned by every return statement has that many elements"""
+        if self.prog is None or self._hdepth >= 2:
+            return None
+        target, off = None, 0
+        if isinstance(e.func, ast.Attribute) and is_self_attr(e.func) and self.fn.cls is not None:
+            target, off = self.prog.lookup_method(self.fn.cls, e.func.attr), 1
+        elif isinstance(e.func, ast.Name):
+            full = self.prog.resolve_name(self.fn.module, e.func.id)
+            target = self.prog.functions.get(full) if full else None
+            if target is not None and target.cls is not None:
+                target = None
+        if target is None or not isinstance(target.node, (ast.FunctionDef, ast.AsyncFunctionDef)) or self.yields_in(target.node):
+            return None
+        rets = [r for r in ast.walk(target.node) if isinstance(r, ast.Return) and r.value is not None]
+        if rets and all(isinstance(r.value, ast.Tuple) for r in rets) and len({len(r.value.elts) for r in rets}) == 1:
+            return Lin.c(len(rets[0].value.elts))
+        body = [b for b in target.node.body if not (isinstance(b, ast.Expr) and isinstance(b.value, ast.Constant))]
+        if not body or not isinstance(body[-1], ast.Return) or body[-1].value is None \
+                or any(isinstance(x, (ast.If, ast.For, ast.While, ast.Try, ast.Return)) for b in body[:-1] for x in ast.walk(b)):
+            return None
+        a = target.node.args
+        names = [x.arg for x in a.posonlyargs + a.args][off:]
+        sub = YState(st.env.copy(), Lin.c(0))
+        for p_, arg in zip(names, e.args):
+            sz = self.size_of(st, arg)
+            if isinstance(sz, Lin):
+                sub.sizes[p_] = sz
+            v = evaluate(st.env, arg)
+            if isinstance(v, Lin):
+                sub.env.vars[p_] = v
+        for k_ in e.keywords:
+            if k_.arg in names:
+                sz = self.size_of(st, k_.value)
+                if isinstance(sz, Lin):
+                    sub.sizes[k_.arg] = sz
+                v = evaluate(st.env, k_.value)
+                if isinstance(v, Lin):
+                    sub.env.vars[k_.arg] = v
+        saved_fn, saved_cur = self.fn, getattr(self, "_cur", None)
+        self.fn = target
+        self._hdepth += 1
+        try:
+            states = [sub]
+            for b in body[:-1]:
+                states = self.block([b], states)
+                if len(states) != 1:
+                    return None
+            self._cur = states[0]
+            r = self.size_of(states[0], body[-1].value)
+            # facts learnt inside (min definitions) belong to the caller's fact store
+            st.env.facts = states[0].env.facts
+            return r if isinstance(r, Lin) else None
+        finally:
+            self.fn, self._cur = saved_fn, saved_cur
+            self._hdepth -= 1
 
     def add(self, a: Any, b: Any) -> Any:
         if isinstance(a, Lin) and isinstance(b, Lin):
